@@ -244,6 +244,69 @@ def run(chk):
         return True, "", [b.span]
     chk.ob("C15.R4:traceparent-layout", "the parser's constant offsets equal the 55-byte layout 00-<32>-<16>-<2> its formatter writes", traceparent_layout)
 
+    def traceparent_writer():
+        bs = [b for b in P.find(trait="core::fmt::Display", method="fmt") if not b.is_closure and (b.self_ty or "") == "emit_traceparent::Traceparent"]
+        if not bs:
+            raise mir.AnchorMissing("Display for Traceparent")
+        b = bs[0]
+        pb = P.body("emit_traceparent::Traceparent::try_from_str")
+        # the parser's all-zero sentinels (an absent id)
+        sent = []
+        for c in pb.calls(normal_only=True):
+            if c.callee.get("name") in ("eq", "ne"):
+                for a in c.args:
+                    o = pb.origin(a)
+                    v = o[1].get("v") if o[0] == "const" and isinstance(o[1], dict) else None
+                    if isinstance(v, dict) and v.get("bytes") and set(v["bytes"]) == {48}:
+                        sent.append(len(v["bytes"]))
+        if sorted(sent) != [16, 32]:
+            return False, "the parser's absent-id sentinels are all-zero strings of lengths %s, expected 32 and 16" % sorted(sent), [], pb.span
+        n_paths = 0
+        for rb in b.return_blocks():
+            for path in b.acyclic_paths(0, rb, limit=2000):
+                ps = mir.PathSummary(b, path)
+                if any(o[0] == "call" and o[1].callee.get("name") == "branch" and tuple(v) in (("1",), (1,)) for sbb, o, v in
+                       [(x, (y[1] if y[0] == "discr" else y), z) for x, y, z in ps.decisions()]):
+                    continue   # an early return with the writer's error
+                n_paths += 1
+                seq = []
+                for c in ps.calls():
+                    nm = c.callee.get("name")
+                    if nm == "write_str":
+                        seq.append(("str", mir.o_const_value(b.origin(c.args[1]))))
+                    elif nm == "write_char":
+                        o = b.origin(c.args[1])
+                        seq.append(("str", (o[1].get("v") or {}).get("char") if o[0] == "const" else None))
+                    elif nm == "fmt" and c.callee.get("trait") == "core::fmt::Display":
+                        names = [n for n in mir.o_field_path(b.origin(c.args[0], through_calls=("deref",)))[1] if not str(n).isdigit()]
+                        seq.append(("field", names[0] if names else None))
+                # normalise: concatenate constant text, keep id fields
+                norm, buf = [], ""
+                for k, v in seq:
+                    if k == "str":
+                        if v is None:
+                            return False, "the formatter writes a non-constant separator", [], b.span
+                        buf += v
+                    else:
+                        norm.append(buf)
+                        norm.append(("F", v))
+                        buf = ""
+                norm.append(buf)
+                flat = [x for x in norm if x != ""]
+                # expected: "00-" (+ zeros32 "-")? ... with fields in order trace_id, span_id, trace_flags
+                text = "".join(x if isinstance(x, str) else "<%s>" % x[1] for x in flat)
+                want = []
+                for tid in ("<trace_id>-", "0" * 32 + "-"):
+                    for sid in ("<span_id>-", "0" * 16 + "-"):
+                        want.append("00-" + tid + sid + "<trace_flags>")
+                if text not in want:
+                    return False, ("Display for Traceparent writes `%s` on some path; the parser expects 00-<32 hex>-<16 hex>-<2 hex> with all-zero "
+                                   "ids (32 / 16 zeros) standing for absent ones" % text), [], b.span
+        if n_paths != 4:
+            return False, "expected the four present/absent combinations of trace id and span id, found %d complete paths" % n_paths, [], b.span
+        return True, "", [b.span, pb.span]
+    chk.ob("C15.R4:traceparent-writer", "the traceparent formatter writes version, ids (or the parser's all-zero sentinels) and flags in the parser's order with the parser's separators", traceparent_writer)
+
     def rfc3339_layout():
         b = P.body("emit_core::timestamp::parse_rfc3339")
         seps = {}
